@@ -1578,7 +1578,7 @@ pub fn run(args: &Args) -> i32 {
     let total_cap: f64 = std::env::var("VERIF_C13_CAP")
         .ok()
         .and_then(|s| s.parse().ok())
-        .unwrap_or(if args.thorough { 560.0 } else { 38.0 });
+        .unwrap_or(if args.thorough { 590.0 } else { 55.0 });
     if let Err(e) = determinism_self_test() {
         eprintln!("machinery error: {e}");
         return 2;
@@ -1592,7 +1592,11 @@ pub fn run(args: &Args) -> i32 {
     for (i, &(cfg, depth, budget, weight)) in jobs.iter().enumerate() {
         let name = cfg.name();
         let left = (total_cap - started.elapsed().as_secs_f64()).max(2.0);
-        let share = left * weight / jobs[i..].iter().map(|j| j.3).sum::<f64>();
+        // A safety net, not a scheduler: the tiers are sized in CPU time (see `passes`) and
+        // complete well within the limit on an idle 16-core machine; a pass is cut short only
+        // when what is left of the wall-clock limit could not hold its next BFS level.
+        let _ = (weight, i);
+        let share = left;
         // the last BFS level costs this many times everything before it
         let growth = if cfg.phase == Phase::HsKeys { 6.5 } else { 4.5 };
         let sink = Arc::new(Sink::default());
